@@ -59,28 +59,14 @@ Section O15.
     && selection_ok (c_in c) (c_obs c) && parallel_ok c.
 End O15.
 
-(* open known findings, recognised on the input (tags keep their numbers; 1-4, 6, 8, 9 are repaired):
+(* open known findings, recognised on the input (tags keep their numbers; 1-4, 6-9 are repaired):
      5     exclude patterns are ignored inside copytree (cloned jobs, left-only directories): the violation
            disappears in the model with every proposed repair applied (cfg_fixed) and repairing fix_excl alone
            changes the behaviour of the model on this input (SyncObs.active) *)
-(*   7     thread pool: one ByKey instance (one skipped_keys set) is shared by all worker threads — a document
-           conflict in one job makes the conflict-free merge of another job raise; its roll-back goes through the
-           un-gated proxy.clear() when the destination document was empty, which writes even in a dry run.
-           Schedule dependent, hence recognised syntactically: pooled project-level call, default ByKey(), some
-           selected job has a genuine document conflict. *)
-Definition spurious_possible (fr : fl -> str) (i : sinput) : bool :=
-  is_project_entry i && i_parallel i
-  && match o_docsync (i_opts i) with DS_bykey None => true | _ => false end
-  && existsb (fun kn => exn_opt_eqb (snd (clone_or_sync fr cfg_current (i_opts i) kn (p_ws (i_dst i))))
-                                    (Some EDocumentSyncConflict))
-             (pooled_jobs cfg_current (i_opts i) (i_src i)).
-
 Definition known_tag_C15 (c : case_sync) : N :=
   if negb (holds_C15 (cs_frepr c) (cs_case c))
      && holds_C15 (cs_frepr c) (model_case (cs_frepr c) cfg_fixed (c_in (cs_case c)))
-  then let t := first_active (cs_frepr c) [5]%N (c_in (cs_case c)) in
-       if negb (N.eqb t 0) then t
-       else if negb (fix_shared cfg_current) && spurious_possible (cs_frepr c) (c_in (cs_case c)) then 7%N else 0%N
+  then first_active (cs_frepr c) [5]%N (c_in (cs_case c))
   else 0%N.
 
 Definition case_C15 := case_sync.
